@@ -78,7 +78,7 @@ CHECKS = {
         text="TLC checks on the specification that each trait's plan is unchanged when all other traits' settings are reset (and that the restriction stays acceptable); the harness expands the full configuration (canonical and with mixed spelling / order / attribute splitting) and the restricted one and requires the impl items of the trait to be token-identical.",
         design_ref='DESIGN.md section 6 (C15)', note=TB_X),
     'C16': dict(
-        technique='TLA+ emission model (MC_C16, self-composition; hashed-map configuration kept as an expected counterexample) model-checked with TLC; repeated in-process and cross-process expansions of TLC-enumerated inputs validated by TLC against TraceX.tla',
+        technique='TLA+ emission model (MC_C16, self-composition with a process-history dimension; the hashed-map and the per-process-memo configurations kept as expected counterexamples) model-checked with TLC; repeated in-process and cross-process expansions of TLC-enumerated inputs validated by TLC against TraceX.tla',
         text='The specification runs two expansions of the same input side by side: with key-ordered iteration of the Into target map they always agree, with hash-map iteration TLC produces the two-target counterexample (checked on every run as a regression test of the model). Every input (all subsets of four Into targets x shapes x attribute orders, plus the multi-trait corpus) is expanded several times in one process and in several fresh processes with different histories; all token streams of one input must be equal.',
         design_ref='DESIGN.md section 6 (C16)', note=TB_X),
     'C17': dict(
@@ -98,7 +98,7 @@ CHECKS = {
                   'every impl item (generic parameters, where-predicates) and the item list validated by TLC against TraceB.tla',
         text='The specification states, for each bound mode (auto, bool, *, custom, disabled; per Into target), exactly which predicates an impl\'s where-clause consists of next '
              'to the user\'s own, and that the impl header repeats the type\'s parameters minus defaults; TLC checks the modes against their definitions and that companions share '
-             'the primary\'s set. Every configuration (two generics descriptors incl. lifetime / bounded+defaulted / const parameters and a user where-clause) is expanded and every '
+             'the primary\'s set. Every configuration (three generics descriptors: plain <T, U>; lifetime + const + bounded, defaulted type parameter + where-clause; two lifetimes with an outlives bound, ?Sized + multi-bound parameter, defaulted const and type parameters, where-clause over compound types) is expanded and every '
              'impl item must carry exactly those parameters and predicates, and the item list must be exactly the educed traits and requested Into targets.',
         design_ref='DESIGN.md section 6 (C12)', note=TB_X),
     'C01': dict(
@@ -106,7 +106,7 @@ CHECKS = {
                   'enumerated item compiled with the real compiler and expanded in process; per-item compile records validated by TLC against TraceK.tla',
         text='The specification says which multi-trait requests must be accepted; TLC enumerates them (t-way attribute settings, every spelling and name pool), together with the '
              'generic-header / bound-mode corpus and a list of special shapes; each item must be accepted by the macro and compile with the real compiler without errors or '
-             'warnings (only dead_code allowed). The single-trait, #[repr]/discriminant, Deref and Into shapes are compiled, and reported in the same way, by C02-C10 and C20.',
+             'warnings (only dead_code allowed). A further stage takes every well-typed field type of the type-expression grammar (EduceTypes.tla, Mode "typed": which std traits a type implements is computed structurally) and educes exactly those traits on it. The single-trait, #[repr]/discriminant, Deref and Into shapes are compiled, and reported in the same way, by C02-C10 and C20.',
         design_ref='DESIGN.md section 6 (C01)', note=TB_R + ' ' + TB_X),
     'C18': dict(
         technique='TLA+ gating model (EduceFeatures) over facts extracted from the source at check time, checked by TLC for all 4095 feature subsets; real cargo check per subset and '
@@ -114,13 +114,13 @@ CHECKS = {
         text='The cfg gates of the shared helper modules, the imports of every handler and the paired cfg(feature)/cfg(not(feature)) sites are extracted from the source and TLC '
              'checks, for every non-empty subset, that every module an enabled handler needs is compiled in (a violation is a prediction; the real build decides). The crate is '
              'then really built with a sample of subsets in the quick tier and all 4095 in the thorough tier (no errors, no warnings; the empty set must fail with the explicit '
-             'message), and inputs naming only enabled traits must expand exactly as in the full build while disabled traits are refused as unsupported.',
+             'message), and inputs naming only enabled traits must expand exactly as in the full build (or be refused, if the full build refuses them) while disabled traits are refused as unsupported wherever they are named (type, variant, field; next to every enabled trait).',
         design_ref='DESIGN.md section 6 (C18)', note=TB_X),
     'C19': dict(
-        technique='TLC-enumerated matrix (MC_C19: identifier pool recorded from real expansions x namespace position x shape x trait set); every item compiled with the real '
-                  'compiler inside a prelude-shadowing module and in a #![no_std] crate; compile records validated by TLC against TraceK.tla',
+        technique='TLC-enumerated matrix (MC_C19: identifier pool, name-derivation templates and fallback names recorded from real expansions x namespace position x shape x trait set; capture candidates computed by TLC); every item compiled with the real '
+                  'compiler inside a prelude-shadowing module and in a #![no_std] crate; compile records validated by TLC against TraceK.tla; run-time corpora under hostile field names validated against TraceR.tla',
         text='The specification contributes the quantifier (every identifier the expansions use internally at every position a user identifier can take) and the expectation '
-             '(accepted, compiles cleanly); it contains no model of Rust name resolution. Known findings (const parameters and bare method names that coincide with internal '
+             '(accepted, compiles cleanly; behaviour unchanged: the ordering / equality / hash / clone corpora rendered with hostile field-name pools must still be explained by the name-independent specification); it contains no model of Rust name resolution. Known findings (const parameters and bare method names that coincide with internal '
              'bindings or prelude names) are listed in known_findings.json; any other failure is a violation.',
         design_ref='DESIGN.md section 6 (C19), section 10', note=TB_R),
 }
